@@ -12,7 +12,7 @@ def run(ctx):
         "(which character is literal, which escape is decoded), derived from the emission guards of both backends and "
         "compared with the RFC 3986 set of the component with lower bound = upper bound for the five requoters; "
         "escapes of bytes outside safe-minus-protected and of all bytes >= 128 are re-emitted unchanged (EM); the identity "
-        "fast paths return the input only when nothing changed (CH1, EM-*-RETURN). (ORD2) the parsing constructor removes dot segments only under an authority. Not decided: composition with host/port "
+        "fast paths return the input only when nothing changed (CH1, EM-*-RETURN). (ORD2) the parsing constructor removes dot segments only under an authority. (H4) the host encoder returns the whole registered name. Not decided: composition with host/port "
         "canonicalisation (C16/C17).")
     pols, cfgs = quoter_audits(ctx, ch2=False)   # the dropped-surrogate clause (CH2) belongs to C01/C05
     table_checks(ctx, pols, cfgs, {"upper", "lower", "pct", "protect", "keep", "stable"})
@@ -31,3 +31,5 @@ def run(ctx):
                                       for b, d in pols.items() for n, p in d.items()}
     from ..rules import port as _port
     _port.prt3(ctx)        # a canonical port (0..65535, decimal) is accepted: the range check is exact
+    from ..rules import host as _host
+    _host.h4(ctx)          # a canonical registered name comes back whole: the encoder folds case, it does not drop characters
